@@ -11,10 +11,19 @@ CONFIG = dict(
              "message = the decoding of its own datagram's first 4096 bytes, a malformed datagram/empty read does not end the loop, "
              "Serve returns iff a read fails (Close = failing read) and nothing after it is processed, the DHCPv4 peer rule, the DHCPv6 "
              "sender passed unchanged, each invocation a function of its own datagram alone - for DHCPv4 with the FromBytes model dec4 and "
-             "for DHCPv6 with the FromBytes model dec6 (and for every other decoder). NOT theorems here: independence at the memory level "
-             "(a decoded message sharing no bytes with the read buffer, C08) and the scheduling of concurrently running handlers are "
-             "outside the sequential fold model: they are checked on the real code by handlers that block until later reads and "
-             "re-render their message, a scribbling scripted connection and (thorough) the Go race detector."),
+             "for DHCPv6 with the FromBytes model dec6 (and for every other decoder). Histories compared (both servers, common parts of "
+             "the histories arbitrary - no SocketPeers hypothesis on them): C14_noninterference4/6/6_dec6 - two histories that differ in "
+             "the read at position i only: (i) the invocations with a smaller index are those of the common prefix whatever the two "
+             "variants are (a datagram turned into a read error or vice versa included), (ii) when both variants are datagrams (v4: from "
+             "socket senders) every invocation other than invocation i, and the exit, are the same, (iii) two datagrams with the same "
+             "first 4096 bytes and sender give the same outcome altogether; C14_prefix4/6/6_dec6 - the invocations of a prefix of the "
+             "history are a prefix of the invocations of the history, more reads add invocations for the new positions only, and "
+             "nothing is added once Serve has ended. These are statements about the VALUES the model hands to handlers. Still NOT "
+             "theorems: independence at the memory level (a decoded message sharing no bytes with the read buffer or with another "
+             "message: C08's ownership tables cover the decoders, not the loops' per-iteration rbuf/peer allocation) and the scheduling "
+             "of concurrently running handlers are outside the sequential fold model: they are checked on the real code by handlers "
+             "that block until later reads and re-render their message, a scribbling scripted connection and (thorough) the Go race "
+             "detector."),
     rule=("server4/server6: generated histories of 0..40 reads (0..200 thorough; every history of length <= 4 over a 6-letter alphabet "
           "in thorough) mixing valid messages of every type (v6: 0..3 relay levels), malformed, empty and >4096-byte datagrams, senders "
           "with nil / 0.0.0.0 / IPv4 / IPv4-mapped / IPv6 addresses, non-UDP and nil sender addresses, read errors and Close at any "
@@ -28,8 +37,8 @@ CONFIG = dict(
 )
 
 MANIFEST = dict(
-    text="Machine-checked theorems (Lean 4, no axioms beyond propext/Quot.sound) about an executable fold model of both Serve loops, for read histories of any length: the handler invocations are exactly, in order, the decodings of the datagrams read before the first failed read (one per decodable datagram, none for an undecodable one), a datagram that does not decode changes neither the other invocations nor the exit, Serve returns iff a read fails and ignores everything after it, a DHCPv4 sender that is nil or 0.0.0.0 becomes 255.255.255.255 with its port and any other UDP sender is passed unchanged, and the invocation for position i is one fixed function of datagram i alone. DHCPv4 is instantiated with the dhcpv4.FromBytes model and DHCPv6 with the dhcpv6.FromBytes model (the DHCPv6 theorems also hold for every decoder); the DHCPv6 loop is proved never to panic. The model is tied to the code on every run by regenerated facts (4096-byte buffer, return/continue shape of the loop, single `go handler` call site, rewrite condition and constants) and by running the real servers over a scripted connection against the compiled model; an implementation-only oracle checks every clause against dhcpv4/dhcpv6.FromBytes, with handlers that outlive later reads, and under the race detector in the thorough tier.",
+    text="Machine-checked theorems (Lean 4, no axioms beyond propext/Quot.sound) about an executable fold model of both Serve loops, for read histories of any length: the handler invocations are exactly, in order, the decodings of the datagrams read before the first failed read (one per decodable datagram, none for an undecodable one), a datagram that does not decode changes neither the other invocations nor the exit, Serve returns iff a read fails and ignores everything after it, a DHCPv4 sender that is nil or 0.0.0.0 becomes 255.255.255.255 with its port and any other UDP sender is passed unchanged, and the invocation for position i is one fixed function of datagram i alone; non-interference over pairs of histories (changing the read at position i changes at most invocation i, nothing before i even when a datagram becomes a read error or vice versa, and nothing at all when the first 4096 bytes and the sender stay the same) and monotonicity (the invocations of a prefix of the history are a prefix of the invocations of the history: what a handler has been handed never changes when more datagrams arrive). DHCPv4 is instantiated with the dhcpv4.FromBytes model and DHCPv6 with the dhcpv6.FromBytes model (the DHCPv6 theorems also hold for every decoder); the DHCPv6 loop is proved never to panic. The model is tied to the code on every run by regenerated facts (4096-byte buffer, return/continue shape of the loop, single `go handler` call site, rewrite condition and constants) and by running the real servers over a scripted connection against the compiled model; an implementation-only oracle checks every clause against dhcpv4/dhcpv6.FromBytes, with handlers that outlive later reads, and under the race detector in the thorough tier.",
     design_ref="DESIGN.md section 6 C14",
-    note=NOTE_COMMON + "Memory-level independence is checked on the implementation (blocking handlers, race detector), not proved; goroutine scheduling not modelled.",
+    note=NOTE_COMMON + "Value-level non-interference and monotonicity are proved (C14_noninterference*, C14_prefix*); memory-level independence is checked on the implementation (blocking handlers, race detector), not proved; goroutine scheduling not modelled.",
     technique="Lean 4 proof by induction over the read history of a fold model + model/code correspondence over a scripted PacketConn + implementation oracle (+ race detector)",
 )
